@@ -134,6 +134,22 @@ def delivered (g : Ghost) (p off : Int) (o : ObsOp) : Except String Ghost :=
           | none => .error "progress-dropped-request"
         | none => .ok (g1.applyBcasts o.bcasts)
 
+/-- truncation, per partition being read: if its next record is gone (`cursor < low watermark`) the operation must have
+closed the request (nothing left to recover) or restarted it at the low watermark -/
+def truncBad (g : Ghost) (o : ObsOp) (pr : Int × Reading) : Option String :=
+  let p := pr.1
+  let low := (g.low.get? p).getD 0
+  let cur := (g.cursor.get? p).getD pr.2.assignOff
+  if cur < low then
+    match lookupP o.bcasts p with
+    | none => some "truncation-not-handled"
+    | some l =>
+      if low ≥ pr.2.toO then (if l.any (fun r => r.2 = pr.2.toO) then some "truncated-request-not-closed" else none)
+      else match l.head? with
+        | some (f, t) => if f = low && t = pr.2.toO then none else some "truncation-restart-point"
+        | none => some "truncation-dropped-request"
+  else none
+
 def specStep (g : Ghost) (op : Op) (o : ObsOp) : Except String Ghost :=
   match op with
   | .main p off =>
@@ -148,20 +164,7 @@ def specStep (g : Ghost) (op : Op) (o : ObsOp) : Except String Ghost :=
   | .kerr true =>
     if !noEmits o then .error "emitted-on-error" else
     -- truncation: for every partition being read whose next record is gone
-    let bad := g.reading.findSome? (fun pr =>
-      let p := pr.1
-      let low := (g.low.get? p).getD 0
-      let cur := (g.cursor.get? p).getD pr.2.assignOff
-      if cur < low then
-        match lookupP o.bcasts p with
-        | none => some "truncation-not-handled"
-        | some l =>
-          if low ≥ pr.2.toO then (if l.any (fun r => r.2 = pr.2.toO) then some "truncated-request-not-closed" else none)
-          else match l.head? with
-            | some (f, t) => if f = low && t = pr.2.toO then none else some "truncation-restart-point"
-            | none => some "truncation-dropped-request"
-      else none)
-    match bad with
+    match g.reading.findSome? (truncBad g o) with
     | some e => .error e
     | none => .ok { (g.applyBcasts o.bcasts) with reading := [] }
   | .kerr false => if noEmits o && o.bcasts.isEmpty && o.calls.isEmpty then .ok g else .error "other-error-must-be-ignored"
@@ -189,5 +192,24 @@ def opInScope : Op → Bool
   | .main _ o => decide (0 ≤ o)
   | .setLow _ v => decide (0 ≤ v)
   | _ => true
+
+/-! ### the model's own observation of one operation, in the observer's vocabulary (what the driver prints and the bridge
+theorem is about) -/
+
+def sortPairs (l : List (Int × Int)) : List (Int × Int) := sortByKey l
+
+def callStr : List Call → String
+  | [] => ""
+  | .unassign :: r => "U" ++ callStr r
+  | .assign _ :: r => "A" ++ callStr r
+
+def lastAssign (cs : List Call) : Option (List (Int × Int)) :=
+  cs.foldl (fun acc c => match c with | .assign l => some (sortPairs l) | .unassign => acc) none
+
+def obsOf (o : Out) : ObsOp :=
+  { recE := (o.emits.filter (·.recovery)).map (fun e => (e.p, e.o)),
+    mainE := (o.emits.filter (fun e => !e.recovery)).map (fun e => (e.p, e.o)),
+    calls := callStr o.calls, assign := lastAssign o.calls,
+    bcasts := sortByKey (o.bcasts.map (fun b => (b.1, snapP b.2))) }
 
 end Firebolt.Recovery
